@@ -267,6 +267,15 @@ class Ctx:
         if getattr(self, "relative", False) and fa.size:
             scale = max(float(np.max(np.abs(fb))), float(np.max(np.abs(fa))), 1e-300)
             tol = max(tol, 1e-6)
+            # ... but never below the rounding noise of a float64 computation on inputs of the given magnitude: operands of
+            # size 1e-16 next to O(1) inputs are rounding residue, not a counterexample made of tiny numbers
+            try:
+                iscale = max([1.0] + [float(np.max(np.abs(np.asarray(v, dtype=complex)))) for k, v in self.inputs.items()
+                                      if not str(k).startswith("__") and np.asarray(v).size])
+            except Exception:
+                iscale = 1.0
+            if scale < 1e-11 * iscale:
+                return self._record(name, "ok")
         err = float(np.max(np.abs(fa - fb))) if fa.size else 0.0
         if not (err <= tol * scale):
             return self._record(name, "failed", detail="max abs diff %.3e (scale %.3e)" % (err, scale))
